@@ -467,7 +467,9 @@ def _validate_chunk(args):
         with open(path, 'w') as f:
             json.dump(dict(traces=[dict(tid=t['tid'], lines=[
                 {k: v for k, v in l.items() if k not in ('tb', 'post', 'queues', 'placement', 'spells',
-                                                         'declared', 'oprio', 'loaded_sched', 'obs_down')}
+                                                         'declared', 'oprio', 'loaded_sched', 'obs_down',
+                                                         'decl_allocs', 'obs', 'order', 'obs_frozen')
+                 and not (k == 'decl_apps' and l.get('ev') not in ('Restart', 'CrashRestart'))}
                 for l in t['lines']]) for t in traces]), f)
         return tlc.validate(SPEC_DIR, 'MasterTrace', 'MasterTrace.cfg', path, timeout=timeout)
     finally:
